@@ -14,7 +14,9 @@ EXPLANATION = (
   "(R4), rollback trims every action list at the checkpoint (R5), the ModifyColumn undo "
   "re-ordering is exception-safe (R6), calc deltas put 'before' values into undo and 'after' "
   "values into stored with rename-aware front restores (R7), and column storage / the schema are "
-  "written only by functions that take part in this pairing (R8). Not decided: equality of "
+  "written only by functions that take part in this pairing (R8), and every cell value captured "
+  "for an undo record is read as stored (raw_get), never through a type-normalising accessor "
+  "(R9). Not decided: equality of "
   "recorded and prior values for every data shape.")
 
 # inverse(M): primary inverse kind(s), and data-restoring extras that must be appended *before*
@@ -45,7 +47,7 @@ def check(run, repo, tier):
   # helper keep their place
   import os
   _HERE = os.path.dirname(os.path.abspath(__file__))
-  decide(run, repo, [r1_r2_r3, r4_replay_order, r5_rollback_trim, r6_modify_reorder, r7_delta_direction, r8_ownership],
+  decide(run, repo, [r1_r2_r3, r4_replay_order, r5_rollback_trim, r6_modify_reorder, r7_delta_direction, r8_ownership, r9_undo_reads_stored],
          anchors_of(os.path.join(_HERE, "c01.py"), os.path.join(_HERE, "_h_E.py"), os.path.join(_HERE, "../events.py")))
 
 
@@ -864,6 +866,49 @@ def r8_ownership(run, w):
                  False, fi=fi, node=x, nontrivial=False)
 
 
+# accessors that give a column's value after type normalisation (wrong-typed cells -- alt text,
+# stored errors -- come back as the default / a converted value): not what undo has to restore
+NORMALISING_READS = ("safe_get", "get_cell_value", "convert")
+
+
+def r9_undo_reads_stored(run, w):
+  R9 = run.rule("C01-R9", "cell values captured for an undo record (or for the calc-summary "
+                "restore) are read with raw_get, never through safe_get / get_cell_value / "
+                "convert", floor=6)
+  names = w.action_types()
+  dnames = w.doc_action_names()
+  cls = w.repo.cls("docactions.DocActions")
+  def normalising(root):
+    return [x for x in ast.walk(root) if isinstance(x, ast.Call) and
+            isinstance(x.func, ast.Attribute) and x.func.attr in NORMALISING_READS]
+  for an in dnames:
+    if an not in cls.methods or an in DELEGATES:
+      continue
+    fn = w.fn_of(cls.methods[an])
+    flow = _flow_of(fn)
+    captured = [(n, c, x) for (n, c, x) in undo_records(w, fn) if x is not None]
+    for (n, c, nm) in calls_E(fn):
+      if E.is_summary_add_changes(c, nm, fn) and c.args:
+        captured.append((n, c, c.args[-1]))
+    for (n, c, x) in captured:
+      bad = []
+      for (e, k) in flow.feeding(x, n.id):
+        bad.extend(normalising(e))
+      run.ob(R9, fn.qualname, short(c), "what undo will restore is the value as stored, wrong-typed "
+             "cells included", not bad, witness="value read through `%s`" % short(bad[0], 70)
+             if bad else None, fi=fn.fi, node=bad[0] if bad else c)
+  # RemoveTable / ReplaceTableData take their undo data from Engine.fetch_table
+  ft = w.fn("engine.Engine.fetch_table")
+  bad = [x for s_ in ft.node.body for x in normalising(s_)]
+  reads = [x for x in ast.walk(ft.node) if isinstance(x, ast.Call) and
+           isinstance(x.func, ast.Attribute) and x.func.attr == "raw_get"]
+  if not reads and not bad:
+    raise AnalysisError("fetch_table: no column read recognised")
+  run.ob(R9, ft.qualname, "column values read with raw_get", "fetched table data (the source of "
+         "the RemoveTable / ReplaceTableData undo) holds the stored values", not bad, fi=ft.fi,
+         node=bad[0] if bad else None)
+
+
 D = "sandbox/grist/docactions.py"
 U = "sandbox/grist/useractions.py"
 VARIANTS = [
@@ -963,6 +1008,14 @@ VARIANTS = [
   ("front-restore-appended", "sandbox/grist/action_summary.py",
    "out_undo.insert(0, update_action(defunct_row_ids, 0, orig_table_id, orig_col_id))",
    "out_undo.insert(0, update_action(defunct_row_ids, 0, table_id, col_id))", "C01-R7"),
+  ("undo-values-through-safe-get", D,
+   "        col_values = [column.raw_get(r) for r in row_ids]",
+   "        col_values = [column.safe_get(r) for r in row_ids]", "C01-R9"),
+  ("removecolumn-undo-through-safe-get", D,
+   """      undo_values = [(r, column.raw_get(r)) for r in table.row_ids
+                     if not strict_equal(column.raw_get(r), default)]""",
+   """      row_values = ((r, column.safe_get(r)) for r in table.row_ids)
+      undo_values = [(r, v) for (r, v) in row_values if not strict_equal(v, default)]""", "C01-R9"),
   ("raw-set-in-useraction", U,
    "    self._engine.update_current_time()\n",
    "    self._engine.update_current_time()\n    self._engine.tables['_grist_DocInfo'].get_column('timezone').set(1, 'UTC')\n", "C01-R8"),
